@@ -1,4 +1,4 @@
 SPECIFICATION Spec
-CONSTANTS CmaxI = 1299  EminNeg = 4  Emax = 1
+CONSTANTS CmaxI = 399  EminNeg = 4  Emax = 1
 INVARIANTS AdjacentExact FloatAllowedSound Totality IntAndRat
 CHECK_DEADLOCK FALSE
